@@ -5,7 +5,7 @@
    line by line against the implementation on every run of ./check C19. Spec.SrecSpec is the
    format definition with its reference reader [read_file] (parse hex text, check count and
    checksum, split the address) and the denotation [denote]. *)
-From PV Require Import Lib.Py Spec.SrecSpec Model.Srecord Proofs.C19_srecord Proofs.C19_refuted.
+From PV Require Import Lib.Py Spec.SrecSpec Model.Srecord Proofs.C19_srecord Proofs.C19_refuted Proofs.C19_text.
 Open Scope Z_scope.
 
 (* precondition base code = 0 <= base /\ base + len code <= 2^32 /\ every element of code is a byte *)
@@ -38,6 +38,14 @@ Theorem c19_too_large_rejected : forall base code,
   4294967296 < base + len code -> write_srecord base code = Diag 1.
 Proof. exact write_srecord_too_large. Qed.
 Print Assumptions c19_too_large_rejected.
+
+(* text shape: every line is 'S' followed only by characters 0-9 A-F (the type digit and upper-case hex
+   digits, no blanks), and has at most 74 characters (the format allows 2 + 2 * 256 = 514; each line is then
+   terminated by the "\n" that print() appends) *)
+Theorem c19_lines_ascii_and_length : forall base code lines, all_byte code = true ->
+  write_srecord base code = Ok lines -> Forall line_ok lines.
+Proof. exact lines_ascii_and_length. Qed.
+Print Assumptions c19_lines_ascii_and_length.
 
 (* ---- the writer as it was before the fixes violates the property *)
 Theorem c19_header_is_S0_refuted : exists code recs, all_byte code = true /\
